@@ -7,6 +7,8 @@ sys.path.insert(0, os.path.dirname(os.path.abspath(__file__)))
 
 from common import *          # noqa
 import ref_ed
+import c01
+from fieldmodel import FIELDS
 
 P25519 = (1 << 255) - 19
 P448 = (1 << 448) - (1 << 224) - 1
@@ -28,9 +30,23 @@ def small_order_u25519():
     return out
 
 
+def solved_u(rng, p, fname, const):
+    """u such that E = AA - BB = 4u of the first ladder step is a value whose product by the curve constant (a24) generates and
+    propagates carries between partial products (see c01.solved_small)."""
+    for _ in range(8):
+        sv = c01.solved_small(rng, FIELDS[fname], const, 32)
+        if sv is not None and sv[0] < p:
+            return sv[0] * pow(4, -1, p) % p
+    return None
+
+
 def hostile_u(rng, p, nbytes, specials):
     top = 1 << (8 * nbytes)
-    t = rng.randrange(10)
+    t = rng.randrange(12)
+    if t >= 10:
+        u = solved_u(rng, p, "gf448" if nbytes == 56 else "gf25519", 39081 if nbytes == 56 else 121665)
+        if u is not None:
+            return u, "first-step-E-solved"
     if t < 2:
         return rng.choice(specials) % top, "u-small-order-or-noncanonical"
     if t == 2:
@@ -112,7 +128,7 @@ def main(argv):
         return do_replay(a.replay)
     rep = Report("C14", a.tier, a.seed)
     rep.rule = ("u in {0,1,p-1,p,p+1,2^255-1, every known small-order u in canonical / non-canonical / top-bit-set form, twist points, random} x "
-                "scalars in {0, all-ones, clamp-boundary patterns, single bits, random}; base-point variants against u=9 / u=5 on the same "
+                "(plus u = E/4 with E solved so that E*a24 carries between partial products in the first ladder step) x scalars in {0, all-ones, clamp-boundary patterns, single bits, random}; base-point variants against u=9 / u=5 on the same "
                 "scalars; two-party agreement. Oracle: RFC 7748 ladder on Python integers. distinct_nontrivial = distinct requests in a "
                 "boundary class")
     rep.assumptions = ["ref_ed.x25519/x448 (checked against the RFC 7748 vectors and the repository KATs)"]
@@ -127,7 +143,8 @@ def main(argv):
         m = run_sharded("c14", "gen", (n // NCPU + 1,), [(c, exes[c]) for c in cfgs], a.seed, timeout=3600)
         rep.merge(m)
         rep.require("x25519:u-small-order-or-noncanonical", "x25519:u>=p", "x25519:u-topbit", "x25519:zero-output", "x25519:k-zero", "x25519:k-ones",
-                    "x25519:base-vs-general", "x25519:dh-agreement", "x448:u>=p", "x448:zero-output", "x448:base-vs-general", "x448:k-clamp-bits-set")
+                    "x25519:base-vs-general", "x25519:dh-agreement", "x448:u>=p", "x448:zero-output", "x448:base-vs-general", "x448:k-clamp-bits-set",
+                    "x448:first-step-E-solved", "x25519:first-step-E-solved")
     except Inconclusive as e:
         rep.incon.append(str(e))
     return rep.finish()
